@@ -493,7 +493,7 @@ def fam_kinds():
 
 def _time_values(fr):
   """values on, between and around units of both syntaxes"""
-  vals = [None, F(0), F(1, 1000), F(1), F(3600), F(1, 2000), F(12345, 10000)]
+  vals = [None, F(0), F(1, 1000), F(1), F(3600), F(1, 2000), F(12345, 10000), F(86400), F(91800) + F(1, 2)]     # the last two: 24 h and beyond
   if fr is not None:
     vals += [1 / fr, 7 / fr, (F(7) + F(1, 2)) / fr, 100 / fr + F(1, 1000)]
   return vals
